@@ -55,7 +55,11 @@ def main():
             v = [l for l in o.splitlines() if l.startswith("VIOLATION")]
             results[mid]["C20"] = {"rc": rc, "violations": len(v), "with_failing_input": sum("no-failing-input-found" not in l for l in v)}
         sh("git -C /repo checkout -- .")
-    json.dump(results, open(f"{V}/seeded/matrix.json", "w"), indent=1, sort_keys=True)
+    old = {}
+    if len(sys.argv) > 1 and os.path.exists(f"{V}/seeded/matrix.json"):
+        old = json.load(open(f"{V}/seeded/matrix.json"))
+    old.update(results)
+    json.dump(old, open(f"{V}/seeded/matrix.json", "w"), indent=1, sort_keys=True)
     for i in range(4):
         sh(f"git -C /repo worktree remove --force /tmp/wt/m{i}")
 
